@@ -155,6 +155,11 @@ def gen_cases(tier, seed):
             c["mag"] = mag
         c["spec"] = I.spec_of(base, drop_attr=drop, garbage=garbage, extra_eattr=extra)
         cases.append(c)
+    # corpus (thorough tier, seed 2): at magnitude 1e7 HiGHS' presolve declares the 3-path model infeasible (known finding, classified by re-solving)
+    cases.append({"mode": "edge", "wt": "int", "cons": [[["2", "3"], ["3", "4"]]], "cov": 0.75, "ignore": [], "planted": 4, "mag": "1e6",
+                  "oo": {"optimize_with_flow_safe_paths": False, "optimize_with_safe_paths": False, "optimize_with_safe_sequences": True, "optimize_with_greedy": False},
+                  "spec": {"nodes": [["1", {}], ["2", {}], ["3", {}], ["4", {}]], "graph": {},
+                           "edges": [["1", "4", {"flow": 5000000}], ["2", "3", {"flow": 14000000}], ["2", "4", {"flow": 13000000}], ["3", "4", {"flow": 14000000}]]}})
     return cases
 
 
@@ -259,8 +264,16 @@ def run_case(case):
     if case.get("mag"):
         # every disagreement on a magnitude-shifted instance is keyed by that magnitude (numerical range of the MILP layer)
         obs["c03.magnitude_cases"] += 1
+        presolve = False
+        if viol and kstar is not None:
+            # classification (as in C04/C05/C07/C15): the same model with HiGHS' presolve switched off reaches the exact minimum
+            # => the solver (trusted base) went wrong on the k*-model; everything that followed (a larger k, a k+1 model that runs
+            # out of time or memory) is a consequence
+            res2 = models.run(inst, solver_options={"threads": 1, "time_limit": 60, "presolve": "off"})
+            presolve = bool(res2.get("solved")) and "exc" not in res2 and len(res2["sol"]["paths"]) == kstar
+            obs["c03.presolve_off_reruns"] += 1
         for v in viol:
-            v["sig"] = f"C03/numerical-range/{case['mag']}/" + v["sig"][4:]
+            v["sig"] = f"C03/numerical-range/{case['mag']}/" + ("solver-presolve-defect" if presolve else v["sig"][4:])
     return {"viol": viol, "obs": dict(obs), "side": side, "nontrivial": bool(kstar and kstar >= 2), "keys": [key] if kstar and kstar >= 2 else [],
             "sample": {"edges": [(u, v, d.get("flow")) for u, v, d in G.edges(data=True)][:14], "mode": mode, "wt": wt, "cons": case["cons"], "ignore": case["ignore"],
                        "oo": case["oo"], "reference_optimum": kstar, "library": (len(res["sol"]["paths"]) if res.get("sol") else None)}}
